@@ -1,9 +1,12 @@
 """Fail-closed translator: the two SEGMENTATION-DERIVED ANNOTATORS (properties C08, C09, C10)  ->  coq/Gen/Annotators_gen.v
 
 Sources (below $VERIF_REPO/src/funtracks, default /repo) and what is translated, in this order:
-  annotators/_compute_ious.py            _compute_ious                (module Ious of the generated file; translated by the
-                                                                       emitter of translate_candgraph.py -- the function is the
-                                                                       one of candidate_graph/iou.py --, into the monad of Model/PyRt5.v)
+  annotators/_compute_ious.py            _compute_ious                (module Ious of the generated file; translated by the emitter
+                                                                       CODE of translate_candgraph.py into the monad of Model/PyRt5.v.
+                                                                       Only annotators/_compute_ious.py is READ: no file below
+                                                                       candidate_graph/ is opened, and neither Gen/CandGraph_gen.v nor
+                                                                       Proofs/CandGraphTie.v is used -- the tie for this function is
+                                                                       Proofs/AnnotatorsIous.v, about the definition generated here)
   annotators/_edge_annotator.py          class EdgeAnnotator:         _iou_update, update, compute
   annotators/_regionprops_annotator.py   class RegionpropsAnnotator:  _regionprops_update, update, compute
 One Gallina definition `gen_<Class>_<method>` each (a leading `_` of the method name is kept: gen_EdgeAnnotator__iou_update), in the
